@@ -123,6 +123,7 @@ class FnTranslator:
         self.rng_prim = None
         self.rng_args = []
         self.rng_stream = False    # round 6: the draw sits inside a do/while loop -> `u : Nat → α`
+        self.status_checked = []   # round 6: `if (esl_stats_X(...) != eslOK) return eslNaN;` sites folded into the plain call
         self.choice = None
         self.n_leaves = 0
         self.leaf_paths = []
@@ -194,6 +195,40 @@ class FnTranslator:
         if k in ("ParenExpr",) or (k == "UnaryOperator" and n.get("opcode") == "-"):
             return self.is_inf_tree(n["inner"][0])
         return False
+
+    def is_nan_tree(self, n):
+        """`eslNaN`: `NAN` = `__builtin_nanf("")`, or `eslINFINITY/eslINFINITY`"""
+        while n.get("kind") in ("ImplicitCastExpr", "ParenExpr", "CStyleCastExpr"):
+            n = n["inner"][0]
+        if n.get("kind") == "CallExpr":
+            try:
+                return self.callee(n) in ("__builtin_nanf", "__builtin_nan")
+            except Unsupported:
+                return False
+        if n.get("kind") == "BinaryOperator" and n.get("opcode") == "/":
+            return all(self.is_inf_tree(c) for c in n["inner"])
+        return False
+
+    def status_checked_call(self, s):
+        """the CallExpr of `if (esl_stats_X(...) != eslOK) return eslNaN;` (no else), or None"""
+        inner = s.get("inner", [])
+        if len(inner) != 2 or s.get("hasInit") or s.get("hasVar"):
+            return None
+        c = self.strip(inner[0])
+        if c.get("kind") != "BinaryOperator" or c.get("opcode") != "!=":
+            return None
+        call, ok = self.strip(c["inner"][0]), self.strip(c["inner"][1])
+        if call.get("kind") != "CallExpr" or ok.get("kind") != "IntegerLiteral" or ok.get("value") != "0":
+            return None
+        try:
+            if self.callee(call) not in ("esl_stats_IncompleteGamma", "esl_stats_LogGamma"):
+                return None
+        except Unsupported:
+            return None
+        th = self.flatten(inner[1])
+        if len(th) != 1 or th[0].get("kind") != "ReturnStmt" or not th[0].get("inner") or not self.is_nan_tree(th[0]["inner"][0]):
+            return None
+        return call
 
     def callee(self, n):
         c = n["inner"][0]
@@ -626,6 +661,13 @@ class FnTranslator:
                     lines.append(pad + "let %s := Num.incGammaQ %s %s" % (q, a, x)); scope = define(q)
                 return lines + self.block(rest, ind, scope)
             raise Unsupported("%s: call statement %s" % (self.where(s), fn))
+        if k == "IfStmt" and self.status_checked_call(s) is not None:
+            # `if (esl_stats_IncompleteGamma(a, x, &p, &q) != eslOK) return eslNaN;` (resp. esl_stats_LogGamma): the function
+            # symbols `Num.incGammaP/Q`, `Num.logGamma` denote the class's junk value exactly where the C function fails - NaN at
+            # binary64 - so the failure branch `return NaN` is the same term as the unchecked call followed by the rest of the
+            # function (every use of the unset result propagates the NaN).  Both shapes translate to the same definition.
+            self.status_checked.append(self.where(s))
+            return self.block([self.status_checked_call(s)] + rest, ind, scope)
         if k == "IfStmt":
             if s.get("hasInit") or s.get("hasVar"):
                 raise Unsupported("%s: if with init/var" % self.where(s))
@@ -864,6 +906,8 @@ def translate_all(src_dir, plan):
                 info.setdefault("leaf_paths", {})[nm] = list(t.leaf_paths)
             if t.has_draw:
                 info.setdefault("draw_args", {})[nm] = list(t.rng_args)
+            if t.status_checked:
+                info.setdefault("status_checked_special_calls", {})[nm] = list(t.status_checked)
             if t.rng_prim or t.choice:
                 info["rng_prim"][nm] = [x for x in (("esl_rnd_DChoose" if t.choice else None), t.rng_prim) if x]
     info["literals"] = sorted(info["literals"])
